@@ -757,3 +757,59 @@ Proof.
   { unfold gap_cands. apply in_flat_map. exists g. split; [exact Hg|]. rewrite Ec. left. reflexivity. }
   destruct (gap_cands s pe); [destruct Hin|reflexivity].
 Qed.
+
+(* ---------- findGaps: ascending, pairwise disjoint, at most maxWebseedPieces long ---------- *)
+Fixpoint gaps_sorted (lo : Z) (gs : list (Z * Z)) : Prop :=
+  match gs with
+  | [] => True
+  | g :: r => lo <= fst g /\ fst g < snd g /\ gaps_sorted (snd g) r
+  end.
+
+Lemma gaps_go_sorted s : forall idx m ingap b, consec m idx (npieces s) -> (ingap = true -> b < m) ->
+  gaps_sorted (if ingap then b else m) (gaps_go s idx ingap b).
+Proof.
+  induction idx as [|x r IH]; intros m ingap b Hc Hb; cbn [gaps_go consec] in *.
+  - subst m. destruct ingap; cbn [gaps_sorted]; [|exact I]. specialize (Hb eq_refl). cbn [fst snd]. lia.
+  - destruct Hc as [-> Hc]. destruct ingap; cbn [negb].
+    + specialize (Hb eq_refl). destruct (avail_ws s m); cbn [negb].
+      * destruct (m - b =? maxws s).
+        -- cbn [gaps_sorted fst snd]. split; [lia|]. split; [lia|]. apply (IH (m + 1) true m Hc). intros _. lia.
+        -- apply (IH (m + 1) true b Hc). intros _. lia.
+      * cbn [gaps_sorted fst snd]. split; [lia|]. split; [lia|].
+        pose proof (IH (m + 1) false b Hc ltac:(intros; discriminate)) as H. cbn in H.
+        clear -H. revert H. generalize (gaps_go s r false b). intros l. destruct l as [|g l]; cbn [gaps_sorted]; [auto|]. intros (A & B & C). repeat split; try lia; exact C.
+    + destruct (avail_ws s m).
+      * pose proof (IH (m + 1) true m Hc ltac:(intros; lia)) as H. cbn in H. exact H.
+      * pose proof (IH (m + 1) false b Hc ltac:(intros; discriminate)) as H. cbn in H.
+        revert H. generalize (gaps_go s r false b). intros l. destruct l as [|g l]; cbn [gaps_sorted]; [auto|]. intros (A & B & C). repeat split; try lia; exact C.
+Qed.
+
+Theorem find_gaps_sorted s : gaps_sorted 0 (find_gaps s).
+Proof.
+  unfold find_gaps. apply (gaps_go_sorted s _ 0 false 0); [|intros; discriminate].
+  unfold zseq, npieces, zlen. pose proof (consec_zseq (length (pieces (base s))) 0) as H. cbn [Z.of_nat Nat.add] in H. exact H.
+Qed.
+
+(* length bound: a web seed is never handed more than maxWebseedPieces pieces in one request *)
+Lemma gaps_go_bounded s : 1 <= maxws s -> forall idx m ingap b, consec m idx (npieces s) ->
+  (ingap = true -> b < m /\ m - b <= maxws s) ->
+  forall g, In g (gaps_go s idx ingap b) -> snd g - fst g <= maxws s.
+Proof.
+  intros Hm. induction idx as [|x r IH]; intros m ingap b Hc Hb g Hg; cbn [gaps_go consec] in *.
+  - destruct ingap; [|destruct Hg]. destruct Hg as [<-|[]]. subst m. specialize (Hb eq_refl). cbn [fst snd]. lia.
+  - destruct Hc as [-> Hc]. destruct ingap; cbn [negb] in Hg.
+    + specialize (Hb eq_refl). destruct (avail_ws s m); cbn [negb] in Hg.
+      * destruct (m - b =? maxws s) eqn:E.
+        -- destruct Hg as [<-|Hg]; [cbn [fst snd]; lia|]. apply (IH (m + 1) true m Hc); [intros _; lia|exact Hg].
+        -- apply (IH (m + 1) true b Hc); [intros _; lia|exact Hg].
+      * destruct Hg as [<-|Hg]; [cbn [fst snd]; lia|]. apply (IH (m + 1) false b Hc); [intros; discriminate|exact Hg].
+    + destruct (avail_ws s m).
+      * apply (IH (m + 1) true m Hc); [intros _; lia|exact Hg].
+      * apply (IH (m + 1) false b Hc); [intros; discriminate|exact Hg].
+Qed.
+
+Theorem find_gaps_bounded s g : 1 <= maxws s -> In g (find_gaps s) -> snd g - fst g <= maxws s.
+Proof.
+  intros Hm. unfold find_gaps. apply (gaps_go_bounded s Hm _ 0 false 0); [|intros; discriminate].
+  unfold zseq, npieces, zlen. pose proof (consec_zseq (length (pieces (base s))) 0) as H. cbn [Z.of_nat Nat.add] in H. exact H.
+Qed.
